@@ -49,6 +49,15 @@ func c16GenKeys(n, style int) []string {
 		S := strings.Repeat("stemSTEM", n/8+1)[:n]
 		return []string{"\x00" + S[1:] + "x", S, S + "\x00", S + "a", S + "a\x00", S + "ab", S + "b", "\xff" + S[1:]}
 	}
+	if style == 3 {
+		// PREFIX CLASSES: for each of n one-byte keys c (0..n-1) also c+01 and c+80: every class gives two
+		// adjacent pairs whose first difference is bit 8 (the key ends there), so one bit slot collects 2n pairs
+		var ks []string
+		for c := 0; c < n; c++ {
+			ks = append(ks, string([]byte{byte(c)}), string([]byte{byte(c), 1}), string([]byte{byte(c), 0x80}))
+		}
+		return ks
+	}
 	keys := make([]string, n)
 	for i := range keys {
 		switch style {
@@ -78,10 +87,18 @@ func c16Big(c *mc.Ctx) {
 	for _, l := range c16LongStems(c) {
 		jobs = append(jobs, job{l, 2})
 	}
+	// prefix classes (style 3): 2n pairs in ONE bit slot, for n around 32, 64, 128 and at 256 (pair counts
+	// around 64, 128, 256 and 512 in the eighth slot after m0)
+	for _, n := range []int{31, 32, 33, 63, 64, 65, 127, 128, 129, 255, 256} {
+		jobs = append(jobs, job{n, 3})
+	}
 	for _, j := range jobs {
 		nk := j.n
 		if j.style == 2 {
 			nk = 8
+		}
+		if j.style == 3 {
+			nk = 3 * j.n
 		}
 		c.Expect(1 + 4*int64(len(c16BigRanges(int32(nk)))))
 	}
@@ -145,7 +162,7 @@ func c16Big(c *mc.Ctx) {
 		c.Add("generated_key_lists", 1)
 		if j.style == 2 {
 			c.Max("longest_shared_stem_bytes", int64(j.n))
-		} else {
+		} else if j.style != 3 {
 			c.Max("largest_key_list", int64(j.n))
 		}
 	})
@@ -210,7 +227,7 @@ func init() {
 		ID:     "C16",
 		Word32: true,
 		Level:  "exploration",
-		Rule: "E1 bounded-exhaustive enumeration: key sets = every non-empty subset (in sorted order) of the 13 strings of length ≤2 over {00,'a',ff}, each behind the stems of 0/7/8/9/16/17/24/31/32/33/64/65 bytes; every subset of 12 keys built from 4 stem variants (first byte 's'/0x00/0xff, eighth byte 0x80); every subset of the 13 strings of length ≤2 over {'a',80,c3} and over {7f,80,bf} (UTF-8 continuation and lead bytes); every subset of 5 short keys behind EVERY stem length 0..80; two key sets with a full 256-byte fan-out below one key; four large key sets taken whole (31, 63, 121 and 341 keys); every subset of 12 keys built from 3 variants of a 17-byte (and of a 25-byte) stem that differ in the first 8-byte chunk and agree in the later ones × 4 tails; chains a, aa, aaa, ... of 33, 34, 65, 66 keys (C17 also 130 and 258) and a 36-level directory tree taken whole (deep nesting); every subset of the 15 strings of length ≤3 over {00,'a'} and every subset of size ≤4 of the 40 strings of length ≤3 over {00,'a',ff} behind stems of 0 and 8 bytes (thorough adds every subset of the 21 strings of length ≤2 over {00,01,'a',ff} and the subsets of size 5..6 of the 40 strings): FirstDiffBits on the set; New+CountPrefixes for every 0 ≤ s, s+2 ≤ e ≤ len and every m in {1,2,4,7,10,17,26}, preceded - on sets of 2..5 keys - by one call over the whole set with m = 3000 (m has no upper bound) on the same SigBits object; a BYTE-LANE sweep: 8-byte keys with a class byte ('a'/80/ff) in lane L and the difference in lane D, every ordered pair (L, D), all subsets of the 6 keys, stems 0 and 8. Generated key lists of EVERY threshold size n = b-1, b, b+1 (b in 2^k, 3·2^k, 10^k, 2·10^k, 5·10^k) from 1000 up to 400001 keys (thorough: 2^20+1), in two styles ('k'+3-byte big-endian counter; 8-byte stem + 7 decimal digits): FirstDiffBits on the list, CountPrefixes (m in {1,7,17} and the FULL depth: two bits beyond the deepest first difference of the range) over the whole list, its halves and short ranges around every 1/8th. LONG keys: eight keys around a shared stem of EVERY threshold length 81..70000 (thorough 2^20+1) bytes (keys and shared prefixes beyond 255, 4095, 65535 bytes), same calls. An m SWEEP: every m from 1 to beyond the deepest first difference on 15 key sets whose spread between smallest and largest first-difference bit runs from a few bits to 800 (one pair differing in its first byte, another behind a shared prefix of 0..100 more bytes), all ranges. UNSORTED lists (the first clause is about every list): FirstDiffBits on every list of 1..4 (thorough 5) keys, repetitions included, over 15 keys (short keys, prefixes of each other, keys sharing 8, 16, 17 and 25 bytes, stem variants that differ early and agree later). " +
+		Rule: "E1 bounded-exhaustive enumeration: key sets = every non-empty subset (in sorted order) of the 13 strings of length ≤2 over {00,'a',ff}, each behind the stems of 0/7/8/9/16/17/24/31/32/33/64/65 bytes; every subset of 12 keys built from 4 stem variants (first byte 's'/0x00/0xff, eighth byte 0x80); every subset of the 13 strings of length ≤2 over {'a',80,c3} and over {7f,80,bf} (UTF-8 continuation and lead bytes); every subset of 5 short keys behind EVERY stem length 0..80; two key sets with a full 256-byte fan-out below one key; four large key sets taken whole (31, 63, 121 and 341 keys); every subset of 12 keys built from 3 variants of a 17-byte (and of a 25-byte) stem that differ in the first 8-byte chunk and agree in the later ones × 4 tails; chains a, aa, aaa, ... of 33, 34, 65, 66 keys (C17 also 130 and 258) and a 36-level directory tree taken whole (deep nesting); every subset of the 15 strings of length ≤3 over {00,'a'} and every subset of size ≤4 of the 40 strings of length ≤3 over {00,'a',ff} behind stems of 0 and 8 bytes (thorough adds every subset of the 21 strings of length ≤2 over {00,01,'a',ff} and the subsets of size 5..6 of the 40 strings): FirstDiffBits on the set; New+CountPrefixes for every 0 ≤ s, s+2 ≤ e ≤ len and every m in {1,2,4,7,10,17,26}, preceded - on sets of 2..5 keys - by one call over the whole set with m = 3000 (m has no upper bound) on the same SigBits object; a BYTE-LANE sweep: 8-byte keys with a class byte ('a'/80/ff) in lane L and the difference in lane D, every ordered pair (L, D), all subsets of the 6 keys, stems 0 and 8. Generated key lists of EVERY threshold size n = b-1, b, b+1 (b in 2^k, 3·2^k, 10^k, 2·10^k, 5·10^k) from 1000 up to 400001 keys (thorough: 2^20+1), in two styles ('k'+3-byte big-endian counter; 8-byte stem + 7 decimal digits): FirstDiffBits on the list, CountPrefixes (m in {1,7,17} and the FULL depth: two bits beyond the deepest first difference of the range) over the whole list, its halves and short ranges around every 1/8th. PREFIX CLASSES: lists of n one-byte keys c each followed by c+01 and c+80 (2n adjacent pairs in one bit slot), n around 32, 64, 128 and 256, same calls. LONG keys: eight keys around a shared stem of EVERY threshold length 81..70000 (thorough 2^20+1) bytes (keys and shared prefixes beyond 255, 4095, 65535 bytes), same calls. An m SWEEP: every m from 1 to beyond the deepest first difference on 15 key sets whose spread between smallest and largest first-difference bit runs from a few bits to 800 (one pair differing in its first byte, another behind a shared prefix of 0..100 more bytes), all ranges. UNSORTED lists (the first clause is about every list): FirstDiffBits on every list of 1..4 (thorough 5) keys, repetitions included, over 15 keys (short keys, prefixes of each other, keys sharing 8, 16, 17 and 25 bytes, stem variants that differ early and agree later). " +
 			"Oracle: first differing index of the '0'/'1' renderings (8·min(len) for a byte-prefix); m0 = minimum over the range; counter i = number of distinct values of the bit string truncated to m0+i bits (adjacent-compare count in the hot path, cross-checked against a map count). A case is one call; non-trivial when the range holds ≥3 keys or the set has a shared stem; key sets that re-occur in a later family are executed again but counted once.",
 		Assumptions: []string{"key sets are drawn from small byte alphabets behind fixed stems; the 8-byte chunk boundaries are crossed through the stems"},
 		Run:         c16Run,
